@@ -591,6 +591,9 @@ impl Arena {
       let (next_node_size, next_next_offset) = decode_segment_node(next_node);
       if next_node_size == REMOVED_SEGMENT_NODE {
         backoff.snooze();
+        // the removed node may already be unlinked: look at the predecessor again
+        current_node = current.load(Ordering::Acquire);
+        (current_node_size, next_offset) = decode_segment_node(current_node);
         continue;
       }
 
@@ -1330,6 +1333,9 @@ impl Arena {
           return Ok(allocated);
         }
         Err(current) => {
+          // we could not unlink the node: give it back, otherwise it stays marked as removed for ever.
+          next_node.store(next_node_val, Ordering::Release);
+
           let (node_size, _) = decode_segment_node(current);
           if node_size == REMOVED_SEGMENT_NODE {
             // the current node is marked as removed, wait other thread to make progress.
@@ -1454,6 +1460,9 @@ impl Arena {
           return Ok(allocated);
         }
         Err(current) => {
+          // we could not unlink the head: give it back, otherwise it stays marked as removed for ever.
+          head.store(head_node_size_and_next_node_offset, Ordering::Release);
+
           let (node_size, _) = decode_segment_node(current);
           if node_size == REMOVED_SEGMENT_NODE {
             // The current head is removed from the list, wait other thread to make progress.
@@ -1537,6 +1546,9 @@ impl Arena {
           continue;
         }
         Err(current) => {
+          // we could not unlink the head: give it back, otherwise it stays marked as removed for ever.
+          head.store(head_node_size_and_next_node_offset, Ordering::Release);
+
           let (node_size, _) = decode_segment_node(current);
           if node_size == REMOVED_SEGMENT_NODE {
             // The current head is removed from the list, wait other thread to make progress.
